@@ -274,6 +274,36 @@ def rule_f(ctx):
          'an int-keyed dict is converted to a list only when its keys are exactly 0..n-1 '
          '(lower AND upper bound tested)', f.loc,
          'one side of the density test is missing: keys such as {-1, 1} pass as 0..1')
+  # only real int keys are positions: the type test is applied to the key
+  # itself and a non-int key ends the attempt ('0' is a dict key, not index 0)
+  loops = [k for k in g.nodes if k.kind == 'iter' and 'src' in A.unparse(k.ast.iter)]
+  problems = []
+  if not loops:
+    problems.append('no loop over the keys')
+  else:
+    kv = A.assigned_names(loops[0].ast.target)
+    tt = [k for k in g.nodes if k.kind == 'test' and isinstance(k.ast, ast.Call) and A.call_name(k.ast) == 'isinstance'
+          and len(k.ast.args) == 2 and A.unparse(k.ast.args[1]) == 'int']
+    if not tt:
+      problems.append('keys are no longer required to be int')
+    for t in tt:
+      if not (isinstance(t.ast.args[0], ast.Name) and t.ast.args[0].id in kv):
+        problems.append(f'the int test is applied to `{A.unparse(t.ast.args[0])}`, not to the key itself: string keys '
+                        f"such as '0' are turned into list positions and the path a.0 disappears")
+      # failing the test returns (src, False)
+      for m, lab in t.succ:
+        if lab == 'false':
+          seen, _ = g.reach(m, follow_exc=False)
+          seen.add(m.id)
+          rets = [g.nodes[i] for i in seen if g.nodes[i].kind == 'return']
+          if m.kind != 'return' or 'False' not in A.unparse(m.ast.value):
+            problems.append('a non-int key does not end the conversion attempt at once')
+    conv = [c for c in A.calls_in(f.node) if A.call_name(c) == 'int']
+    if conv:
+      problems.append('keys are converted with int(): a string key becomes a position')
+  ctx.ob('C10.f', f.fq + '#int-keys', not problems,
+         'only dicts whose keys are all real ints are treated as lists (no conversion of keys)', f.loc,
+         '; '.join(problems))
 
 
 def run(ctx):
